@@ -18,6 +18,8 @@ def build_network(net: Dict[str, Any]):
         return OSMRoadNetwork(G.grid(net))
     if net["type"] == "denver":
         return OSMRoadNetwork(G.denver())
+    if net["type"] == "manhattan":
+        return OSMRoadNetwork(G.manhattan())
     return HaversineRoadNetwork()
 
 
@@ -165,6 +167,9 @@ def build_cases(tier, seed):
         else:
             net = {"type": "grid", "n": rnd.randint(3, 8), "seed": rnd.randint(0, 10**6), "speeds": rnd.choice(["varied", "uniform", "slow", "mixed"]), "oneway": rnd.choice([0.0, 0.2, 0.4]), "delete": rnd.choice([0.0, 0.1, 0.2]), "dlat": rnd.choice([0.0003, 0.002, 0.01]), "dlon": rnd.choice([0.0004, 0.0025, 0.012])}
         cases.append({"engine": "c13_sweep", "id": f"C13-sweep{j}", "seed": seed * 1000 + j, "net": net, "n": per})
+    if tier == "thorough":
+        for j in range(8):
+            cases.append({"engine": "c13_sweep", "id": f"C13-manhattan{j}", "seed": seed * 1000 + 900 + j, "net": {"type": "manhattan"}, "n": 3000})
     # every route requested during ordinary scenario runs
     n, steps = (16, 150) if tier == "quick" else (120, 400)
     for i in range(n):
